@@ -20,6 +20,8 @@
 
 mod args;
 mod rec;
+mod stress;
+mod van;
 
 use std::collections::HashMap;
 
@@ -28,7 +30,7 @@ use midnight_circuits::hash::poseidon::PoseidonState;
 use midnight_curves::{Bls12, Fq as F, G1Projective};
 use midnight_proofs::{
     plonk::{
-        commit_to_instances, create_proof, keygen_pk, keygen_vk_with_k, prepare,
+        commit_to_instances, create_proof, keygen_pk, keygen_vk_with_k, prepare, Circuit,
     },
     poly::{
         commitment::Guard,
@@ -90,6 +92,39 @@ fn run_case<H: TranscriptHash>(
     G1Projective: Hashable<H>,
 {
     let circuits: Vec<FamCircuit> = (0..n_proofs).map(|i| FamCircuit::new(fp.clone(), seed + i as u64)).collect();
+    let insts: Vec<Vec<Vec<F>>> = circuits.iter().map(|c| c.instances()).collect();
+    let mut labels: Vec<String> = fp.gates.iter().map(|g| format!("gate={g:?}")).collect();
+    labels.extend(fp.lookups.iter().map(|l| format!("lookup={l:?}")));
+    run_circuits::<H, FamCircuit>(
+        ctx, setup, hash_name, &circuits, insts, fp.n_committed, fp.n_plain, format!("{fp:?}"), labels, extra_k, seed, with_args, None,
+    );
+}
+
+/// Circuits of one type (same constraint system) proven together, verified. `key_class = Some(..)`:
+/// the circuit is one the mock checker itself refuses (`ConstraintPoisoned`: a gate active on the
+/// unusable rows), so a rejected proof is recorded but is not a failure of the property.
+/// Returns `Some(accepted)`.
+#[allow(clippy::too_many_arguments)]
+fn run_circuits<H: TranscriptHash, C: Circuit<F> + Clone>(
+    ctx: &mut Ctx,
+    setup: &mut Setup,
+    hash_name: &str,
+    circuits: &[C],
+    insts: Vec<Vec<Vec<F>>>,
+    n_committed: usize,
+    n_plain: usize,
+    params_desc: String,
+    labels: Vec<String>,
+    extra_k: u32,
+    seed: u64,
+    with_args: bool,
+    key_class: Option<&str>,
+) -> Option<bool>
+where
+    F: Hashable<H> + Sampleable<H>,
+    G1Projective: Hashable<H>,
+{
+    let n_proofs = circuits.len();
     // find the smallest k for which key generation succeeds, then add extra_k
     let mut k = 4;
     let (pk, k) = loop {
@@ -134,21 +169,24 @@ fn run_case<H: TranscriptHash>(
             ctx.case("graph", true, &format!("graph {}", gates.join(";")), &ans);
         }
     }
-    let insts: Vec<Vec<Vec<F>>> = circuits.iter().map(|c| c.instances()).collect();
     let lens = insts
         .iter()
-        .map(|cols| mzkh::join(&cols[fp.n_committed..].iter().map(|c| c.len()).collect::<Vec<_>>()))
+        .map(|cols| mzkh::join(&cols[n_committed..].iter().map(|c| c.len()).collect::<Vec<_>>()))
         .collect::<Vec<_>>()
         .join("|");
-    let cfg = format!("np={} nc={} lens={}", n_proofs, fp.n_committed, lens);
-    let desc = json!({"params": format!("{fp:?}"), "n_proofs": n_proofs, "k": k, "hash": hash_name, "seed": seed});
+    let cfg = format!("np={} nc={} lens={}", n_proofs, n_committed, lens);
+    let desc = json!({"params": params_desc, "n_proofs": n_proofs, "k": k, "hash": hash_name, "seed": seed});
     let key = format!(
         "honest-rejected:np={},nc={},npl={},{}",
         n_proofs,
-        fp.n_committed,
-        fp.n_plain,
+        n_committed,
+        n_plain,
         hash_name
     );
+    let key = match key_class {
+        Some(c) => format!("honest-rejected:{c}"),
+        None => key,
+    };
 
     // prove
     let inst_refs: Vec<Vec<&[F]>> = insts.iter().map(|cols| cols.iter().map(|c| &c[..]).collect()).collect();
@@ -160,8 +198,8 @@ fn run_case<H: TranscriptHash>(
         create_proof::<F, Scheme, _, _>(
             &params,
             &pk,
-            &circuits,
-            fp.n_committed,
+            circuits,
+            n_committed,
             &inst_refs2,
             ChaCha8Rng::seed_from_u64(seed ^ 0xbeef),
             &mut tr,
@@ -174,7 +212,7 @@ fn run_case<H: TranscriptHash>(
         Ok(Ok(())) => {}
         other => {
             ctx.oracle_fail(&format!("{key}:prover"), "create_proof failed on a satisfying witness", json!({"case": desc, "result": format!("{other:?}")}));
-            return;
+            return None;
         }
     }
     let proof = tr.finalize();
@@ -200,20 +238,23 @@ fn run_case<H: TranscriptHash>(
     let domain = pk.get_vk().get_domain();
     let commitments: Vec<Vec<G1Projective>> = insts
         .iter()
-        .map(|cols| cols[..fp.n_committed].iter().map(|c| commit_to_instances::<F, Scheme>(&params, domain, c)).collect())
+        .map(|cols| cols[..n_committed].iter().map(|c| commit_to_instances::<F, Scheme>(&params, domain, c)).collect())
         .collect();
     let com_refs: Vec<&[G1Projective]> = commitments.iter().map(|c| &c[..]).collect();
     let plain_refs: Vec<Vec<&[F]>> =
-        insts.iter().map(|cols| cols[fp.n_committed..].iter().map(|c| &c[..]).collect()).collect();
+        insts.iter().map(|cols| cols[n_committed..].iter().map(|c| &c[..]).collect()).collect();
     let plain_refs2: Vec<&[&[F]]> = plain_refs.iter().map(|c| &c[..]).collect();
     let mut vt = RecordingTranscript::<H>::init_from_bytes(&proof);
     midnight_proofs::plonk::verif_hooks::clear_identity_log();
+    midnight_proofs::plonk::verif_hooks::set_instance_eval_log(true);
     let vres = mzkh::catch(|| {
         let guard = prepare::<F, Scheme, _>(pk.get_vk(), &com_refs, &plain_refs2, &mut vt).map_err(|e| format!("{e:?}"))?;
         vt.assert_empty().map_err(|e| format!("trailing: {e:?}"))?;
         guard.verify(&params.verifier_params()).map_err(|e| format!("{e:?}"))
     });
     let v_events = take_log();
+    let inst_log = midnight_proofs::plonk::verif_hooks::take_instance_eval_log();
+    midnight_proofs::plonk::verif_hooks::set_instance_eval_log(false);
     ctx.case("schedule-verifier", true, &format!("schedule V {shape} {cfg}"), &tokens(&v_events));
     {
         // number of identities the verifier folded with y (hooked log of `vanishing::verifier::verify`)
@@ -228,17 +269,32 @@ fn run_case<H: TranscriptHash>(
                 &format!("idcount np={} g={} s={} l={} t={}", n_proofs, n_polys, args::n_sets(cs), cs.lookups().len(), cs.trashcans().len()),
                 &f.values.len().to_string(),
             );
+            // the fold itself: expected_h_eval = fold(values, y) / (x^n - 1)
+            van::emit_fold(ctx, f);
         }
     }
+    if let [il] = &inst_log[..] {
+        // the verifier's own evaluation of the plain instance columns, and the Lagrange
+        // evaluations l_i_range / l_0 / l_last / l_blind at the x of this proof
+        let plain: Vec<Vec<Vec<F>>> = insts.iter().map(|cols| cols[n_committed..].to_vec()).collect();
+        van::emit_instance_evals(ctx, pk.get_vk(), k, n_committed, &plain, il, &desc);
+        let mut x = <F as ff::PrimeField>::Repr::default();
+        x.as_mut().copy_from_slice(&il.x);
+        let x = <F as ff::PrimeField>::from_repr(x).unwrap();
+        let mut lrng = ctx.rng(&format!("lagrange{seed}"));
+        van::emit_lagrange(ctx, pk.get_vk(), k, x, &mut lrng);
+    }
     ctx.count(&format!("np={n_proofs}"));
-    ctx.count(&format!("nc={}", fp.n_committed));
+    ctx.count(&format!("nc={}", n_committed));
     ctx.count(&format!("k={k}"));
     ctx.count(&format!("hash={hash_name}"));
-    for g in &fp.gates {
-        ctx.count(&format!("gate={g:?}"));
+    for l in &labels {
+        ctx.count(l);
     }
-    for l in &fp.lookups {
-        ctx.count(&format!("lookup={l:?}"));
+    {
+        let cs = pk.get_vk().cs();
+        ctx.count(&format!("quotient-pieces={}", cs.degree() - 1));
+        ctx.count(&format!("blinding-factors={}", cs.blinding_factors()));
     }
     match vres {
         Ok(Ok(())) => {
@@ -248,9 +304,13 @@ fn run_case<H: TranscriptHash>(
             if !same {
                 ctx.oracle_fail(&format!("{key}:bytes"), "verifier accepted but absorbed different bytes than the prover", json!({"case": desc}));
             }
+            Some(true)
         }
         other => {
-            ctx.oracle_fail(&key, "honest proof rejected by the verifier", json!({"case": desc, "result": format!("{other:?}"), "shape": shape, "cfg": cfg}));
+            if key_class.is_none() {
+                ctx.oracle_fail(&key, "honest proof rejected by the verifier", json!({"case": desc, "result": format!("{other:?}"), "shape": shape, "cfg": cfg}));
+            }
+            Some(false)
         }
     }
 }
@@ -306,6 +366,94 @@ fn lookup_failure_cases(ctx: &mut Ctx, setup: &mut Setup, fp: &FamParams, seed: 
         }
     }
     found
+}
+
+/// One member of the C01-owned stress shapes (`stress.rs`).
+#[allow(clippy::too_many_arguments)]
+fn stress_case<H: TranscriptHash>(
+    ctx: &mut Ctx,
+    setup: &mut Setup,
+    hash_name: &str,
+    sp: &stress::StressParams,
+    n_proofs: usize,
+    extra_k: u32,
+    seed: u64,
+    with_args: bool,
+    key_class: Option<&str>,
+) -> Option<bool>
+where
+    F: Hashable<H> + Sampleable<H>,
+    G1Projective: Hashable<H>,
+{
+    let circuits: Vec<stress::StressCircuit> =
+        (0..n_proofs).map(|i| stress::StressCircuit::new(sp.clone(), seed + i as u64)).collect();
+    let insts: Vec<Vec<Vec<F>>> = circuits.iter().map(|c| c.instances()).collect();
+    let mut labels = vec![format!("stress:deg={}", sp.deg)];
+    if sp.unblinded_rot {
+        labels.push("stress:unblinded-queried-at-3-rotations".into());
+    }
+    if sp.phase2_unqueried {
+        labels.push("stress:phase2-column-never-queried".into());
+    }
+    if sp.lookup_advice_table {
+        labels.push("stress:lookup-table=advice".into());
+    }
+    if sp.lookup_instance_table {
+        labels.push("stress:lookup-table=instance".into());
+    }
+    if sp.nosel != stress::NoSel::None {
+        labels.push(format!("stress:nosel={:?}", sp.nosel));
+    }
+    run_circuits::<H, stress::StressCircuit>(
+        ctx, setup, hash_name, &circuits, insts, sp.n_committed, sp.n_plain, format!("{sp:?}"), labels, extra_k, seed, with_args, key_class,
+    )
+}
+
+/// Gates without a factor that vanishes on the unusable rows, on the real prover. Such a gate is
+/// "active on an unusable row": the mock checker reports `ConstraintPoisoned` for it, and the real
+/// prover — which overwrites the last `blinding_factors + 1` rows of every blinded advice column with
+/// random values — produces a proof the verifier rejects (Lean: `unselected_gate_not_divisible`);
+/// with a fixed-column factor the gate is protected (`selector_gate_blinding_rows`). Oracle: whenever
+/// the mock checker accepts circuit and witness, the honest proof must be accepted.
+fn noselector_cases(ctx: &mut Ctx, setup: &mut Setup) {
+    use stress::{NoSel, StressCircuit, StressParams};
+    for (nosel, class) in [
+        (NoSel::FixedFactor, "gate-with-fixed-column-factor"),
+        (NoSel::AdviceOnly, "gate-without-selector:advice-only"),
+        (NoSel::OneMinusSel, "gate-without-selector:one-minus-selector"),
+    ] {
+        let sp = StressParams { nosel, ..StressParams::default() };
+        let c = StressCircuit::new(sp.clone(), 31);
+        let mock = mzkh::catch(|| {
+            midnight_proofs::dev::MockProver::run(5, &c, c.instances()).map(|m| match m.verify() {
+                Ok(()) => "ok".to_string(),
+                Err(e) => {
+                    if e.iter().all(|f| matches!(f, midnight_proofs::dev::VerifyFailure::ConstraintPoisoned { .. })) {
+                        "ConstraintPoisoned".to_string()
+                    } else {
+                        format!("{:?}", e.first()).chars().take(60).collect()
+                    }
+                }
+            })
+        });
+        let mock_s = match mock {
+            Ok(Ok(s)) => s,
+            other => format!("{other:?}").chars().take(40).collect(),
+        };
+        let poisoned = mock_s == "ConstraintPoisoned";
+        let acc = stress_case::<Blake2bState>(ctx, setup, "blake2b", &sp, 1, 0, 31, false, if poisoned { Some(class) } else { None });
+        ctx.count(&format!(
+            "noselector-gate:{nosel:?}:mock={mock_s}:verifier={}",
+            match acc {
+                Some(true) => "accepts",
+                Some(false) => "rejects",
+                None => "prover-failed",
+            }
+        ));
+        if mock_s != "ok" && !poisoned {
+            ctx.oracle_fail(&format!("stress-witness-unsatisfied:{class}"), "the stress circuit's witness does not satisfy the mock checker", json!({"mock": mock_s}));
+        }
+    }
 }
 
 fn both_hashes(ctx: &mut Ctx, setup: &mut Setup, fp: &FamParams, n_proofs: usize, extra_k: u32, seed: u64, poseidon: bool) {
@@ -374,6 +522,50 @@ fn main() {
     // degree 3 (one permutation column per set) with an additive-selector gate only
     let thin = FamParams { gates: vec![GateKind::Additive], n_committed: 0, n_plain: 1, steps: 5, ..FamParams::default() };
     run_case::<Blake2bState>(&mut ctx, &mut setup, "blake2b", &thin, 2, 1, 23, true);
+
+    // stress shapes: gate degree 3..9 (2..8 quotient pieces) at the minimal k and one above
+    {
+        use stress::StressParams;
+        let degs: &[usize] = if ctx.quick() { &[3, 4, 6, 8, 9] } else { &[3, 4, 5, 6, 7, 8, 9] };
+        for (i, &deg) in degs.iter().enumerate() {
+            let sp = StressParams { deg, ..StressParams::default() };
+            stress_case::<Blake2bState>(&mut ctx, &mut setup, "blake2b", &sp, 1, (i % 2) as u32, 40 + i as u64, true, None);
+        }
+        // unblinded column queried at -1/0/+1, unqueried third-phase column, lookups into an advice
+        // column and into an instance column, 2 committed + 1 plain instance columns, 3 and 4 proofs
+        let full = StressParams {
+            deg: 5,
+            unblinded_rot: true,
+            phase2_unqueried: true,
+            lookup_advice_table: true,
+            lookup_instance_table: true,
+            n_committed: 2,
+            n_plain: 1,
+            steps: 6,
+            ..StressParams::default()
+        };
+        stress_case::<Blake2bState>(&mut ctx, &mut setup, "blake2b", &full, 1, 0, 50, true, None);
+        stress_case::<Blake2bState>(&mut ctx, &mut setup, "blake2b", &full, 3, 0, 51, true, None);
+        stress_case::<PoseidonState<F>>(&mut ctx, &mut setup, "poseidon", &full, 4, 0, 52, false, None);
+        // each feature alone, no committed column
+        for (j, sp) in [
+            StressParams { unblinded_rot: true, ..StressParams::default() },
+            StressParams { phase2_unqueried: true, ..StressParams::default() },
+            StressParams { lookup_advice_table: true, ..StressParams::default() },
+            StressParams { lookup_instance_table: true, ..StressParams::default() },
+        ]
+        .iter()
+        .enumerate()
+        {
+            stress_case::<Blake2bState>(&mut ctx, &mut setup, "blake2b", sp, 2, 0, 60 + j as u64, true, None);
+        }
+        // the shared family with 2 committed columns and 3 / 4 proofs
+        let two_c = FamParams { n_committed: 2, n_plain: 1, gates: vec![GateKind::Mul, GateKind::InstRot], ..FamParams::default() };
+        let two_c = FamParams { gates: vec![GateKind::InstRot, GateKind::Mul], ..two_c };
+        both_hashes(&mut ctx, &mut setup, &two_c, 3, 0, 70, false);
+        both_hashes(&mut ctx, &mut setup, &two_c, 4, 0, 71, true);
+        noselector_cases(&mut ctx, &mut setup);
+    }
 
     // lookup input outside the table: `permute_expression_pair` must return ConstraintSystemFailure
     let lf = FamParams { gates: vec![GateKind::Mul], lookups: vec![LookupKind::Pair, LookupKind::Range], steps: 6, ..FamParams::default() };
